@@ -134,9 +134,23 @@ def mk_fh(fh, shift):
     from sktime.forecasting.base import ForecastingHorizon
     if fh is None:
         return None
+    # the same horizon in different containers and orders (the model sorts; so must the code)
+    form = (sum(fh[1]) + 3 * len(fh[1]) + shift) % 5
+    vals = list(fh[1])
+    if form in (1, 3) and len(vals) > 1:
+        vals = vals[1:] + vals[:1]            # rotated: not in increasing order
     if fh[0] == "r":
-        return list(fh[1]) if len(fh[1]) != 1 else (list(fh[1]) if shift % 2 else int(fh[1][0]))
-    return ForecastingHorizon(np.array([v + shift for v in fh[1]], dtype="int64"), is_relative=False)
+        if len(vals) == 1:
+            return list(vals) if shift % 2 else int(vals[0])
+        if form == 2:
+            return np.array(vals, dtype="int64")
+        if form == 3:
+            return pd.Index(np.array(vals, dtype="int64"))
+        if form == 4:
+            return ForecastingHorizon(pd.Index(np.array(vals[::-1], dtype="int64")), is_relative=True)
+        return list(vals)
+    arr = np.array([v + shift for v in vals], dtype="int64")
+    return ForecastingHorizon(pd.Index(arr) if form in (3, 4) else arr, is_relative=False)
 
 
 def mk_cv(cv):
